@@ -123,14 +123,33 @@ pub fn make_scenario(property: &str, tier: &str, master: u64, idx: u64) -> Scena
 
 /// Execute one scenario on the current thread. Pure function of (scenario, code).
 pub fn execute(scn: &Scenario, keep_lines: bool) -> Result<Outcome, String> {
+    // the hash keys this run starts with (recorded so that a violating run can be replayed with the very same
+    // iteration orders), then every other draw of OS randomness made a function of the run seed
+    let hash_keys = if crate::osrand::active() { crate::osrand::peek_keys() } else { None };
+    crate::osrand::set_stream(mix(&[scn.seed, label_hash("os-randomness")]));
     let mut ctx = Ctx::new(&scn.property, scn.seed, keep_lines);
     ctx.install_entropy();
     let r = std::panic::catch_unwind(std::panic::AssertUnwindSafe(|| dispatch(scn, &mut ctx)));
     bc_rand::verif_set_thread_seed(None);
-    match r {
+    let r = match r {
         Ok(Ok(())) => Ok(Outcome::from_ctx(ctx)),
         Ok(Err(e)) => Err(e),
-        Err(_) => {
+        Err(_) => execute_panicked(scn, keep_lines),
+    };
+    r.map(|mut o| {
+        o.hash_keys = hash_keys;
+        o
+    })
+}
+
+/// Execute on a fresh OS thread whose hash keys are `keys` (replay, minimisation).
+pub fn execute_keyed(scn: &Scenario, keep_lines: bool, keys: Option<(u64, u64)>) -> Result<Outcome, String> {
+    crate::osrand::on_primed_thread(keys, || execute(scn, keep_lines))
+}
+
+fn execute_panicked(scn: &Scenario, keep_lines: bool) -> Result<Outcome, String> {
+    {
+        {
             let loc = crate::LAST_PANIC_LOC.with(|l| l.borrow().clone());
             if loc.starts_with("src/") {
                 // a bug in the simulator itself
@@ -196,18 +215,18 @@ pub fn match_known<'a>(known: &'a [Known], property: &str, v: &Violation) -> Opt
 // ---------------------------------------------------------------------------------------
 // minimisation
 
-fn still_fails(scn: &Scenario, oracle: &str, budget: &mut u64) -> bool {
+fn still_fails(scn: &Scenario, oracle: &str, budget: &mut u64, keys: Option<(u64, u64)>) -> bool {
     if *budget == 0 {
         return false;
     }
     *budget -= 1;
-    match execute(scn, false) {
+    match execute_keyed(scn, false, keys) {
         Ok(o) => o.violations.iter().any(|v| v.oracle == oracle),
         Err(_) => false,
     }
 }
 
-pub fn minimise(scn: &Scenario, oracle: &str) -> (Scenario, u64) {
+pub fn minimise(scn: &Scenario, oracle: &str, keys: Option<(u64, u64)>) -> (Scenario, u64) {
     let mut budget: u64 = 2000;
     let mut best = scn.clone();
     // ddmin over the step list
@@ -221,7 +240,7 @@ pub fn minimise(scn: &Scenario, oracle: &str) -> (Scenario, u64) {
             let mut cand = best.clone();
             let end = (i + chunk).min(len);
             cand.steps.drain(i..end);
-            if !cand.steps.is_empty() && still_fails(&cand, oracle, &mut budget) {
+            if !cand.steps.is_empty() && still_fails(&cand, oracle, &mut budget, keys) {
                 best = cand;
                 n = (n - 1).max(2);
                 reduced = true;
@@ -252,7 +271,7 @@ pub fn minimise(scn: &Scenario, oracle: &str) -> (Scenario, u64) {
                     }
                     let mut cand = best.clone();
                     cand.steps[si].a[ai] = cand_v;
-                    if still_fails(&cand, oracle, &mut budget) {
+                    if still_fails(&cand, oracle, &mut budget, keys) {
                         best = cand;
                         changed = true;
                         break;
@@ -267,7 +286,7 @@ pub fn minimise(scn: &Scenario, oracle: &str) -> (Scenario, u64) {
 // ---------------------------------------------------------------------------------------
 // replay
 
-pub fn write_replay(scn: &Scenario, v: &Violation, tier: &str, master: u64, idx: u64, before: usize, execs: u64) -> Result<String, String> {
+pub fn write_replay(scn: &Scenario, v: &Violation, tier: &str, master: u64, idx: u64, before: usize, execs: u64, keys: Option<(u64, u64)>) -> Result<String, String> {
     let dir = format!("{}/replays", verif_dir());
     std::fs::create_dir_all(&dir).map_err(|e| e.to_string())?;
     let path = format!("{}/{}-{}-{}.json", dir, scn.property, master, idx);
@@ -276,16 +295,36 @@ pub fn write_replay(scn: &Scenario, v: &Violation, tier: &str, master: u64, idx:
         "master_seed": master, "run_index": idx,
         "violation": v.msg, "signature": v.signature,
         "steps_before_minimisation": before, "steps_after_minimisation": scn.steps.len(), "minimisation_executions": execs,
+        "hash_keys": keys_json(keys),
         "scenario": scn.to_json(),
     });
     std::fs::write(&path, serde_json::to_string_pretty(&j).unwrap()).map_err(|e| e.to_string())?;
     Ok(path)
 }
 
+/// std RandomState keys as JSON (decimal strings: u64 does not survive a JSON number).
+fn keys_json(keys: Option<(u64, u64)>) -> Value {
+    match keys {
+        Some((a, b)) => json!([a.to_string(), b.to_string()]),
+        None => Value::Null,
+    }
+}
+fn keys_from_json(v: Option<&Value>) -> Option<(u64, u64)> {
+    let a = v?.as_array()?;
+    Some((a.first()?.as_str()?.parse().ok()?, a.get(1)?.as_str()?.parse().ok()?))
+}
+
+/// The hash keys worker `wk` of a batch starts with.
+fn worker_keys(master: u64, property: &str, wk: u64) -> (u64, u64) {
+    (mix(&[master, label_hash(property), wk, label_hash("k0")]), mix(&[master, label_hash(property), wk, label_hash("k1")]))
+}
+
 /// Re-execute, on one thread and in order, the runs that the failing run's worker had executed before it
 /// (static striping: worker, worker+W, worker+2W, ...), then the failing run itself.
 fn execute_history(property: &str, tier: &str, master: u64, idx: u64, workers: u64, keep_lines: bool) -> Result<Outcome, String> {
     let wk = idx % workers.max(1);
+    let _acc = Acc::default(); // the worker creates its accumulator (two hash sets) before its first run
+
     let mut j = wk;
     while j < idx {
         let scn = make_scenario(property, tier, master, j);
@@ -309,9 +348,10 @@ pub fn replay(path: &str) -> Result<i32, String> {
         let master = v.get("master_seed").and_then(|x| x.as_u64()).unwrap_or(0);
         let idx = v.get("run_index").and_then(|x| x.as_u64()).unwrap_or(0);
         println!("history replay: runs {}, {}, ... up to {} on one thread", idx % workers, idx % workers + workers, idx);
-        execute_history(&scn.property, &tier, master, idx, workers, true)?
+        let property = scn.property.clone();
+        crate::osrand::on_primed_thread(Some(worker_keys(master, &property, idx % workers.max(1))), || execute_history(&property, &tier, master, idx, workers, true))?
     } else {
-        execute(&scn, true)?
+        execute_keyed(&scn, true, keys_from_json(v.get("hash_keys")))?
     };
     if let Some(lines) = &out.trace_lines {
         for l in lines {
@@ -359,7 +399,7 @@ struct Acc {
     oracle_evals: u64,
     sim_ticks: u64,
     executed_steps: u64,
-    violating: Vec<(u64, Violation)>,
+    violating: Vec<(u64, Violation, Option<(u64, u64)>)>,
     known_hits: BTreeMap<String, (u64, String)>,
     samples: BTreeMap<u64, String>,
     hashes: Vec<(u64, String)>,
@@ -398,7 +438,11 @@ fn run_batch(property: &str, tier: &str, master: u64, runs: u64, workers: usize,
             let stop_at = &stop_at;
             let stop = &stop;
             let total = &total;
-            s.spawn(move || {
+            std::thread::Builder::new().stack_size(crate::osrand::STACK).spawn_scoped(s, move || {
+                if crate::osrand::active() {
+                    let (k0, k1) = worker_keys(master, property, wk);
+                    crate::osrand::prime_thread(k0, k1);
+                }
                 let mut acc = Acc::default();
                 let mut j: u64 = 0;
                 loop {
@@ -436,11 +480,12 @@ fn run_batch(property: &str, tier: &str, master: u64, runs: u64, workers: usize,
                             if keep_hashes {
                                 acc.hashes.push((idx, o.trace_hash.clone()));
                             }
+                            let run_keys = o.hash_keys;
                             for v in o.violations {
                                 if let Some(k) = match_known(known, property, &v) {
                                     acc.known_hits.entry(k.id.clone()).or_insert((idx, v.msg.clone()));
                                 } else {
-                                    acc.violating.push((idx, v));
+                                    acc.violating.push((idx, v, run_keys));
                                     stop_at.fetch_min(idx, Ordering::Relaxed);
                                 }
                             }
@@ -477,7 +522,7 @@ fn run_batch(property: &str, tier: &str, master: u64, runs: u64, workers: usize,
                 t.samples.extend(acc.samples);
                 t.hashes.extend(acc.hashes);
                 t.harness_errors.extend(acc.harness_errors);
-            });
+            }).expect("spawn worker");
         }
     });
     let mut acc = total.into_inner().unwrap();
@@ -495,6 +540,7 @@ pub fn master_seed() -> u64 {
 }
 
 pub fn main(args: &[String]) -> Result<i32, String> {
+    crate::osrand::selfcheck();
     match args.get(1).map(|s| s.as_str()) {
         Some("run") => {
             let property = args.get(2).ok_or("usage: envsim run <Cxx> <tier>")?;
@@ -544,6 +590,9 @@ fn run_check(property: &str, tier: &str) -> Result<i32, String> {
         return Err(format!("no scenario family serves property {}", property));
     }
     crate::cv_selfcheck()?;
+    if !crate::osrand::active() {
+        println!("note: the OS-randomness seam could not be installed in this build; hash-iteration order stays with the kernel");
+    }
     let master = master_seed();
     let runs: u64 = std::env::var("VERIF_RUNS").ok().and_then(|s| s.parse().ok()).unwrap_or_else(|| default_runs(property, tier));
     let known = load_known()?;
@@ -569,25 +618,26 @@ fn run_check(property: &str, tier: &str) -> Result<i32, String> {
         println!("KNOWN-FINDING: property={} {} [{}; first at run {}: {}]", property, k.what, k.id, idx, msg);
     }
     // report the violation(s) of the lowest run index, one per oracle
-    if let Some((first_idx, _)) = r.acc.violating.first().cloned() {
-        for (idx, v) in r.acc.violating.iter().filter(|x| x.0 == first_idx) {
+    if let Some((first_idx, _, _)) = r.acc.violating.first().cloned() {
+        for (idx, v, keys) in r.acc.violating.iter().filter(|x| x.0 == first_idx) {
+            let keys = *keys;
             if !reported.insert(v.oracle.clone()) {
                 continue;
             }
             let scn = make_scenario(property, tier, master, *idx);
-            let (min, execs) = minimise(&scn, &v.oracle);
-            let mo = execute(&min, false)?;
+            let (min, execs) = minimise(&scn, &v.oracle, keys);
+            let mo = execute_keyed(&min, false, keys)?;
             let mv = mo.violations.iter().find(|x| x.oracle == v.oracle).cloned().unwrap_or_else(|| v.clone());
             if let Some(k) = match_known(&known, property, &mv) {
                 println!("KNOWN-FINDING: property={} {} [{}]", property, k.what, k.id);
                 continue;
             }
-            let path = write_replay(&min, &mv, tier, master, *idx, scn.steps.len(), execs)?;
+            let path = write_replay(&min, &mv, tier, master, *idx, scn.steps.len(), execs, keys)?;
             let mut confirmed = confirm_in_fresh_process(&path, &mv.oracle)?;
             let mut reported = (min.clone(), mv.clone(), path.clone());
             if confirmed.is_none() {
                 // fall back to the un-minimised scenario (minimisation under hash-order nondeterminism can over-shrink)
-                let raw_path = write_replay(&scn, v, tier, master, *idx + 1_000_000_000, scn.steps.len(), 0)?;
+                let raw_path = write_replay(&scn, v, tier, master, *idx + 1_000_000_000, scn.steps.len(), 0, keys)?;
                 confirmed = confirm_in_fresh_process(&raw_path, &v.oracle)?;
                 reported = (scn.clone(), v.clone(), raw_path);
             }
@@ -680,14 +730,14 @@ fn write_evidence(property: &str, tier: &str, master: u64, r: &BatchResult, dete
             "determinism_selfcheck": { "runs": r.runs.min(300), "worker_counts": [1, 3], "identical_trace_hashes": determinism_ok },
             "components": {
                 "real": ["bc-envelope (/repo working tree, all default features + multithreaded)", "dcbor", "bc-components", "bc-crypto", "sskr", "bc-shamir", "bc-ur", "bc-rand range/rejection logic"],
-                "stub": ["bc-rand entropy source (per-thread seeded StdRng through the /verif/vendor/bc-rand seam)", "transport/storage/clock: simulator-owned in-memory structures"],
+                "stub": ["bc-rand entropy source (per-thread seeded StdRng through the /verif/vendor/bc-rand seam)", "kernel getrandom (interposed symbol: seeded std hash keys per worker thread, seeded stream per run for pqcrypto)", "transport/storage/clock: simulator-owned in-memory structures"],
             },
             "exhaustive": false,
         },
         "assumptions": [
             "rustc/std, the sha2 crate and the simulator's own CBOR writer/reader and digest model are correct (the model writer is cross-checked against hand-derived encodings at start-up)",
             "AEAD/signature/KEM primitives in bc-crypto are trusted",
-            "hash-iteration order (std RandomState) and pqcrypto randomness are not under the simulator's control; no byte derived from them enters a trace hash",
+            if crate::osrand::active() { "hash-iteration order (std RandomState keys) and pqcrypto randomness come from the simulator through the interposed getrandom symbol: each worker thread starts from keys derived from (seed, property, worker), a violating run records the keys it started with and its replay starts a fresh thread primed with them; the getrandom 0.2 crate (raw system call) is reachable only through bc-rand, which has its own seam" } else { "hash-iteration order (std RandomState) and pqcrypto randomness are not under the simulator's control in this build; no byte derived from them enters a trace hash" },
             "a clean batch is evidence over the sampled seeds and bounds stated here, not a proof",
         ],
     });
